@@ -1,6 +1,6 @@
 SPECIFICATION Spec
 CONSTANTS
-  MaxT = 6
+  MaxT = 5
   T <- ToyT
   Fam = "ddr"
   BankKeys <- OtherGroup
